@@ -298,7 +298,7 @@ def recheck_worker(wid, queue, lock, muts, outfh):
                 continue
             src[m["line"] - 1] = m["new"]
             open(path, "w").write("\n".join(src))
-            for prop in ALL:
+            for prop in (os.environ.get("MUT_PROPS", "").split() or ALL):
                 if prop in r.get("checks", {}):
                     continue
                 env = dict(ENV, VERIF_REPO=wt, VERIF_NO_EVIDENCE="1")
